@@ -139,6 +139,9 @@ func (r *Run) codecSequences(reg codecRegion) []string {
 		if o := prog.IdentObj(c.Info, e); o != nil && tsVars[o] {
 			return true
 		}
+		if _, isID := e.(*ast.Ident); isID {
+			e = ast.Unparen(deref(c.Info, e)) // isDelete := entry.IsDelete()
+		}
 		if call, ok := e.(*ast.CallExpr); ok {
 			if fn := c.P.CalleeFunc(c.Info, call); fn != nil && fn.Name() == "IsDelete" {
 				return true
